@@ -297,6 +297,18 @@ func valToM(v Val) any {
 			m[k.Str()] = int(v.E[i].I)
 		}
 		return m
+	case v.K == "f64s":
+		out := []float64{}
+		for _, e := range v.E {
+			out = append(out, e.Float())
+		}
+		return out
+	case v.K == "mapIS":
+		m := map[int]string{}
+		for i, k := range v.Ks {
+			m[int(k.I)] = v.E[i].Str()
+		}
+		return m
 	case v.K == "mapSA":
 		m := map[string]any{}
 		for i, k := range v.Ks {
@@ -354,6 +366,10 @@ func mPrint(v any) string {
 		return "<[]string Value>"
 	case map[string]int:
 		return "<map[string]int Value>"
+	case []float64:
+		return "<[]float64 Value>"
+	case map[int]string:
+		return "<map[int]string Value>"
 	case map[string]any:
 		return "<map[string]interface {} Value>"
 	}
@@ -516,6 +532,23 @@ func mIterate(v any, rev, sorted bool) []mItem {
 			ks = append(ks, k)
 		}
 		sort.Strings(ks) // only generated with "sorted"
+		for _, k := range ks {
+			items = append(items, mItem{k: k, v: x[k]})
+		}
+	case []float64:
+		c := append([]float64(nil), x...)
+		if sorted {
+			sort.Float64s(c)
+		}
+		for _, f := range c {
+			items = append(items, mItem{k: f})
+		}
+	case map[int]string:
+		ks := make([]int, 0, len(x))
+		for k := range x {
+			ks = append(ks, k)
+		}
+		sort.Ints(ks) // numeric order of the keys; only generated with "sorted"
 		for _, k := range ks {
 			items = append(items, mItem{k: k, v: x[k]})
 		}
